@@ -3,5 +3,4 @@ CONSTANTS
   Universe = "H"
   MaxLines = 4
 INVARIANT MachineOK
-INVARIANT GenInv
 CHECK_DEADLOCK FALSE
